@@ -190,7 +190,15 @@ func (e *explorer) run(prefix []int) *execution {
 	if e.mapMode {
 		hooks.SetMapOrder(func(site, k int) []int {
 			if k > 4 {
-				return nil
+				// larger maps: sorted order or its reverse (every pair of keys is seen in both relative orders)
+				if e.choose('m', 2, 1) == 0 {
+					return nil
+				}
+				rev := make([]int, k)
+				for i := range rev {
+					rev[i] = k - 1 - i
+				}
+				return rev
 			}
 			alt := e.choose('m', factorial(k), 1)
 			return nthPerm(k, alt)
@@ -782,6 +790,12 @@ func runC13(c *run.Ctx) {
 				dseq, _ := San(dmk(), din)
 				exploreC13(c, dmk, []string{din}, 1, false, true, 0, 2, []string{dseq}, fmt.Sprintf("maporder-disjoint-patterns%d", di))
 			}
+		}
+		// property names that carry two stacked vendor prefixes (which prefix is tried first must not matter)
+		{
+			in := `<p style="-moz--webkit-color: red; -o--ms-width: 5px; color: blue">x</p>`
+			pseq, _ := San(mk(), in)
+			exploreC13(c, mk, []string{in}, 1, false, true, 0, 2, []string{pseq}, "maporder-stacked-prefixes")
 		}
 		// two very short documents, each with a differently named element that is removed for lack of attributes (the
 		// closing-tag bookkeeping of one call must not meet the other's): every interleaving with <=2 preemptions
